@@ -153,6 +153,8 @@ impl Cache {
             let mut proc = collection.find(&task.pid)?;
             proc.end_time = p.end_time();
             proc.state = p.state().into();
+            // the env can be changed by the scripts after the process is started
+            proc.env = p.env().to_string();
 
             collection.update(&proc)?;
             self.store.upsert_task(task)?;
